@@ -336,6 +336,119 @@ func run(r *hx.Result, cfg hx.Config) {
 			}
 		}
 	}
+	// a connection that was opened and used while NO password was configured gains nothing from
+	// that: after CONFIG SET requirepass (from another connection) its next commands are refused
+	// like a new connection's and change nothing (c15_stale_connection: conn_authd of a history that
+	// never presented the password is false). Own server: the matrix servers stay as they are.
+	{
+		st, err := srv.Start(filepath.Join(cfg.Work, "stale"))
+		if err != nil {
+			panic(err)
+		}
+		adm := st.MustDial()
+		seed(adm)
+		type oldConn struct {
+			name string
+			c    *srv.Conn
+			warm [][]string // what it did while there was no password
+		}
+		olds := []*oldConn{
+			{"used:get+set", st.MustDial(), [][]string{{"GET", "fleet", "truck1"}, {"SET", "fleet", "early1", "POINT", "3", "3"}}},
+			{"used:scan", st.MustDial(), [][]string{{"SCAN", "fleet"}}},
+			{"used:ping-only", st.MustDial(), [][]string{{"PING"}}},
+			{"used:failed-auth", st.MustDial(), [][]string{{"AUTH", "sesame"}, {"GET", "fleet", "truck1"}}},
+			{"used:output+eval", st.MustDial(), [][]string{{"OUTPUT", "resp"}, {"EVAL", "return tile38.call('get','fleet','truck1')", "0"}}},
+			{"idle", st.MustDial(), nil},
+		}
+		for _, o := range olds {
+			o.c.Timeout = 3 * time.Second
+			for _, w := range o.warm {
+				v, err := o.c.Do(w...)
+				// AUTH without a configured password is answered "invalid password"; everything else runs
+				if err != nil || (v.Kind == '-' && w[0] != "AUTH") {
+					r.Fail(hx.Failure{Kind: "oracle", Signature: "stale-setup", What: fmt.Sprintf("password-less server refused %q: %s %v", strings.Join(w, " "), v.String(), err)})
+				}
+			}
+		}
+		adm.MustDo("CONFIG", "SET", "requirepass", "sesame")
+		adm.Close()
+		authedDump := func() string {
+			c := st.MustDial()
+			defer c.Close()
+			c.MustDo("AUTH", "sesame")
+			return srv.Dump(c)
+		}
+		before := authedDump()
+		probes := []struct {
+			cmd, inner string
+			wire       []string
+		}{
+			{"get", "get", []string{"GET", "fleet", "truck1"}},
+			{"scan", "scan", []string{"SCAN", "fleet"}},
+			{"set", "set", []string{"SET", "fleet", "intruder1", "POINT", "1", "1"}},
+			{"timeout", "set", []string{"TIMEOUT", "2", "SET", "fleet", "intruder2", "POINT", "2", "2"}},
+			{"timeout", "get", []string{"TIMEOUT", "2", "GET", "fleet", "truck1"}},
+			{"eval", "eval", []string{"EVAL", "return tile38.call('set','fleet','intruder3','point',3,3)", "0"}},
+			{"evalro", "evalro", []string{"EVALRO", "return tile38.call('get','fleet','truck1')", "0"}},
+			{"evalna", "evalna", []string{"EVALNA", "return tile38.call('del','fleet','truck1')", "0"}},
+			{"config get", "config get", []string{"CONFIG", "GET", "requirepass"}},
+			{"config set", "config set", []string{"CONFIG", "SET", "requirepass", ""}},
+			{"del", "del", []string{"DEL", "fleet", "truck2"}},
+			{"drop", "drop", []string{"DROP", "names"}},
+			{"fset", "fset", []string{"FSET", "fleet", "truck1", "speed", "77"}},
+			{"hooks", "hooks", []string{"HOOKS", "*"}},
+			{"keys", "keys", []string{"KEYS", "*"}},
+			{"server", "server", []string{"SERVER"}},
+		}
+		for _, o := range olds {
+			for round := 0; round < 2; round++ {
+				if round == 1 {
+					// a wrong AUTH in between is refused and changes nothing about the connection
+					v, err := o.c.Do("AUTH", "Sesame")
+					r.Count("stale/"+o.name+"/auth-wrong", true)
+					if got := classify(v, err); got != "err:invalidpassword" {
+						r.Fail(hx.Failure{Kind: "oracle", Signature: "wrong-password-accepted", What: fmt.Sprintf("connection %s (opened before requirepass was set): AUTH with a wrong password answered %s", o.name, v.String()),
+							Case: map[string]interface{}{"connection": o.name, "before_requirepass": o.warm, "cmd": "AUTH Sesame"}})
+					}
+				}
+				for _, p := range probes {
+					v, err := o.c.Do(p.wire...)
+					got := classify(v, err)
+					want := drv.Ask("gate", us(p.cmd), us(p.inner), "0", "0", "1", "0", "1", "0", "n", "0")
+					key := fmt.Sprintf("stale/%s/%d/%s", o.name, round, us(strings.Join(p.wire, " ")))
+					r.Count(key, true)
+					r.Dist("stale:" + modelClass(want))
+					cs := map[string]interface{}{"connection": o.name, "before_requirepass": o.warm, "then": "CONFIG SET requirepass sesame (other connection)", "cmd": strings.Join(p.wire, " ")}
+					if got != "err:authrequired" {
+						r.Fail(hx.Failure{Kind: "oracle", Signature: "stale-connection-authorised", What: fmt.Sprintf("a connection that never authenticated (%s, opened before requirepass was set) was not refused: %q -> %s", o.name, strings.Join(p.wire, " "), v.String()),
+							Case: cs, Impl: got + " (" + v.String() + ")"})
+					}
+					if got != modelClass(want) {
+						r.Fail(hx.Failure{Kind: "correspondence", Signature: "gate-model-stale", What: "reply class on a never-authenticated old connection differs from the gate model with authd = false (conn_authd of its history)",
+							Case: cs, Impl: got + " (" + v.String() + ")", Model: want})
+					}
+				}
+			}
+			o.c.Close()
+		}
+		r.Sample(14, map[string]string{"mode": "stale-connection", "wrap": "direct", "cmd": "GET fleet truck1 | SET … | CONFIG SET requirepass (other conn) | GET/SET/EVAL/TIMEOUT SET/CONFIG GET on the old conn", "reply_class": "err:authrequired", "model": "err:authrequired"})
+		if after := authedDump(); after != before {
+			r.Fail(hx.Failure{Kind: "oracle", Signature: "stale-connection-authorised", What: "commands of never-authenticated connections (opened before requirepass was set) changed the dataset",
+				Case: map[string]string{"before": before, "after": after}})
+		}
+		// the right password still authenticates a new connection
+		{
+			c := st.MustDial()
+			v := c.MustDo("AUTH", "sesame")
+			g := c.MustDo("GET", "fleet", "truck1")
+			r.Count("stale/fresh-auth", true)
+			if v.Kind == '-' || g.Kind == '-' {
+				r.Fail(hx.Failure{Kind: "oracle", Signature: "right-password-refused", What: "after CONFIG SET requirepass a new connection with the right password is refused: " + v.String() + " / " + g.String()})
+			}
+			c.Close()
+		}
+		st.Kill()
+	}
 	// wrong password never authenticates; right one does
 	{
 		c := pw.MustDial()
